@@ -25,11 +25,30 @@ type c13WidJ struct {
 	G int    `json:"g"`
 }
 
+// c13Ref is one spec.resourceRefs entry of an XR the collector lists. Bad = "" (well formed),
+// "nokind" (empty kind) or "noapi" (empty apiVersion): a malformed reference names no watched kind.
+type c13Ref struct {
+	G   int    `json:"g"`
+	Bad string `json:"bad"`
+}
+
+// c13XR is one XR the collector lists. None of the state flags may influence what the
+// collector stops: an XR references its kinds as long as it exists.
+type c13XR struct {
+	Del      bool     `json:"del"`      // deletionTimestamp set, finalizer pending
+	Paused   bool     `json:"paused"`   // crossplane.io/paused annotation
+	NoComp   bool     `json:"nocomp"`   // no spec.compositionRef
+	NotReady bool     `json:"notready"` // Ready=False
+	Unsynced bool     `json:"unsynced"` // Synced=False
+	Refs     []c13Ref `json:"refs"`
+}
+
 type c13Op struct {
 	Op    string    `json:"op"` // start stop isRunning startWatches stopWatches getWatches gc removeInformer
 	N     int       `json:"n"`
 	Ws    []c13WidJ `json:"ws"`
-	Refs  []int     `json:"refs"`
+	Refs  []int     `json:"refs"` // legacy input form of Xrs: one live XR per kind plus one referencing all of them
+	Xrs   []c13XR   `json:"xrs"`
 	G     int       `json:"g"`
 	Phase int       `json:"phase"`
 }
@@ -69,8 +88,22 @@ func c13Norm(s *c13Scn) {
 		if s.Threads[i].Ws == nil {
 			s.Threads[i].Ws = []c13WidJ{}
 		}
-		if s.Threads[i].Refs == nil {
-			s.Threads[i].Refs = []int{}
+		if s.Threads[i].Op == "gc" && s.Threads[i].Xrs == nil {
+			all := c13XR{}
+			for _, g := range s.Threads[i].Refs {
+				s.Threads[i].Xrs = append(s.Threads[i].Xrs, c13XR{Refs: []c13Ref{{G: g}}})
+				all.Refs = append(all.Refs, c13Ref{G: g})
+			}
+			s.Threads[i].Xrs = append(s.Threads[i].Xrs, all)
+		}
+		s.Threads[i].Refs = []int{}
+		if s.Threads[i].Xrs == nil {
+			s.Threads[i].Xrs = []c13XR{}
+		}
+		for k := range s.Threads[i].Xrs {
+			if s.Threads[i].Xrs[k].Refs == nil {
+				s.Threads[i].Xrs[k].Refs = []c13Ref{}
+			}
 		}
 	}
 	if s.Script == nil {
@@ -151,12 +184,44 @@ func c13GenWids(r *Rng, kinds int, max int) []c13WidJ {
 		if r.Chance(1, 3) {
 			t = Pick(r, c13Types)
 		}
-		ws = append(ws, c13WidJ{T: t, G: r.Intn(kinds)})
+		ws = append(ws, c13WidJ{T: t, G: c13GenKind(r, kinds)})
 	}
 	if r.Chance(1, 5) { // the same watch twice in one call (an XR composing two resources of one kind)
 		ws = append(ws, ws[0])
 	}
 	return ws
+}
+
+// c13GenKind draws a kind: mostly version v1 of one of `kinds` kinds, sometimes version v2 of
+// the same kind (numbered 1000+g), which is a different GVK.
+func c13GenKind(r *Rng, kinds int) int {
+	g := r.Intn(kinds)
+	if r.Chance(1, 8) {
+		return 1000 + g
+	}
+	return g
+}
+
+// c13GenXRs draws the XRs the collector lists: 0-3 XRs in every state a collector could be
+// tempted to filter on, with 0-3 references each (duplicates, malformed ones, several versions
+// of one kind).
+func c13GenXRs(r *Rng, kinds int) []c13XR {
+	xrs := []c13XR{}
+	for i, n := 0, r.Intn(4); i < n; i++ {
+		x := c13XR{Del: r.Chance(1, 3), Paused: r.Chance(1, 5), NoComp: r.Chance(1, 5), NotReady: r.Chance(1, 4), Unsynced: r.Chance(1, 5), Refs: []c13Ref{}}
+		for j, m := 0, r.Intn(4); j < m; j++ {
+			ref := c13Ref{G: c13GenKind(r, kinds)}
+			if r.Chance(1, 10) {
+				ref.Bad = Pick(r, []string{"nokind", "noapi"})
+			}
+			x.Refs = append(x.Refs, ref)
+			if r.Chance(1, 6) {
+				x.Refs = append(x.Refs, ref)
+			}
+		}
+		xrs = append(xrs, x)
+	}
+	return xrs
 }
 
 func c13GenOp(r *Rng, names, kinds int) c13Op {
@@ -175,13 +240,7 @@ func c13GenOp(r *Rng, names, kinds int) c13Op {
 	case 11:
 		return c13Op{Op: "getWatches", N: n}
 	case 12, 13:
-		refs := []int{}
-		for g := 0; g < kinds; g++ {
-			if r.Bool() {
-				refs = append(refs, g)
-			}
-		}
-		return c13Op{Op: "gc", N: n, Refs: refs}
+		return c13Op{Op: "gc", N: n, Xrs: c13GenXRs(r, kinds)}
 	default:
 		return c13Op{Op: "removeInformer", G: r.Intn(kinds)}
 	}
@@ -245,8 +304,9 @@ func c13Alphabet() []c13Op {
 		{Op: "startWatches", N: 0, Ws: []c13WidJ{w("xr", 0), w("composed", 1)}},
 		{Op: "stopWatches", N: 0, Ws: []c13WidJ{w("composed", 0)}},
 		{Op: "getWatches", N: 0},
-		{Op: "gc", N: 0, Refs: []int{}},
-		{Op: "gc", N: 0, Refs: []int{0}},
+		{Op: "gc", N: 0, Xrs: []c13XR{}},
+		{Op: "gc", N: 0, Xrs: []c13XR{{Refs: []c13Ref{{G: 0}}}}},
+		{Op: "gc", N: 0, Xrs: []c13XR{{Del: true, NotReady: true, Refs: []c13Ref{{G: 0}}}, {Refs: []c13Ref{{G: 1000}}}}},
 		{Op: "removeInformer", G: 0},
 		{Op: "startWatches", N: 1, Ws: []c13WidJ{w("composed", 0)}},
 		{Op: "stop", N: 1},
